@@ -85,7 +85,7 @@ def gen_case(rng, tier, i):
     fl = []
     for t in faults:
         nact = len(prog["handlers"].get(t, []))
-        fl.append([t, rng.randint(0, nact), rng.choice(["exc", "exc", "key", "base", "exit"])])
+        fl.append([t, rng.randint(0, nact), rng.choice(["exc", "exc", "key", "base", "exit", "bare", "assert", "chained"])])
     strategy = ["log", "warn", "pause"][(i // VARIANTS + v) % 3] if v < 12 else rng.choice(["log", "warn", "pause"])
     driver = rng.choice(["start", "start", "bounded", "step", "mixed"])
     # the strategy may be changed by the model while it runs: the one in force when a handler fails decides
@@ -248,6 +248,9 @@ def run_case(case, ctx):
         # the process treats warnings as errors (python -W error / PYTHONWARNINGS=error, as test and CI runs often do): how a
         # failure is reported must not depend on it
         import warnings
+        # (every library module is imported first: with warnings as errors the compile-time SyntaxWarning of a docstring in
+        # statistics.py - an invalid escape sequence - would abort the first import; that is about importing, not about faults)
+        import pydsol.core.statistics, pydsol.core.distributions, pydsol.core.units, pydsol.core.experiment, pydsol.core.parameters, pydsol.core.streams  # noqa
         ctx.count("cases_run_with_warnings_as_errors")
         with warnings.catch_warnings():
             warnings.simplefilter("error")
